@@ -17,6 +17,7 @@ Section ValueInd.
   Hypothesis HW : forall v to, P v -> P (WithUnit v to).
   Hypothesis HDist : forall e vs, Forall P vs -> P (Distribution e vs).
   Hypothesis HM : forall u t n, P (MeanOf u t n).
+  Hypothesis HMS : forall u vs, Forall P vs -> P (MeanSeq u vs).
   Hypothesis HON : forall e, P (Opt e None).
   Hypothesis HOS : forall e v, P v -> P (Opt e (Some v)).
   Fixpoint value_ind' (v : value) : P v :=
@@ -30,6 +31,9 @@ Section ValueInd.
         HDist e vs ((fix go (l : list value) : Forall P l :=
                        match l with [] => Forall_nil P | x :: r => Forall_cons x (value_ind' x) (go r) end) vs)
     | MeanOf u t n => HM u t n
+    | MeanSeq u vs =>
+        HMS u vs ((fix go (l : list value) : Forall P l :=
+                     match l with [] => Forall_nil P | x :: r => Forall_cons x (value_ind' x) (go r) end) vs)
     | Opt e None => HON e
     | Opt e (Some v) => HOS e v (value_ind' v)
     end.
@@ -130,6 +134,7 @@ Fixpoint script_errors_ok (v : value) : Prop :=
   | Script _ c => error_has_message c
   | WithUnit v _ => script_errors_ok v
   | Distribution _ vs => (fix all (l : list value) : Prop := match l with [] => True | x :: r => script_errors_ok x /\ all r end) vs
+  | MeanSeq _ vs => (fix all (l : list value) : Prop := match l with [] => True | x :: r => script_errors_ok x /\ all r end) vs
   | Opt _ (Some v) => script_errors_ok v
   | _ => True
   end.
@@ -146,6 +151,7 @@ Proof.
     destruct (fst (fold_left (collect (tag_unit e)) (map write (x :: vs)) ([], []))) eqn:F; [discriminate|].
     inversion E; subst. discriminate.
   - destruct (N.eqb n 0); discriminate.
+  - unfold mean_write in E. destruct (N.eqb _ 0); discriminate.
   - apply (IHv S msgs E).
 Qed.
 
@@ -161,6 +167,32 @@ Qed.
 
 Lemma script_errors_ok_dist : forall e vs, script_errors_ok (Distribution e vs) -> Forall script_errors_ok vs.
 Proof. intros e vs. cbn. induction vs as [|x vs IH]; intros H; constructor; [tauto | apply IH; tauto]. Qed.
+Lemma script_errors_ok_mean : forall e vs, script_errors_ok (MeanSeq e vs) -> Forall script_errors_ok vs.
+Proof. intros e vs. cbn. induction vs as [|x vs IH]; intros H; constructor; [tauto | apply IH; tauto]. Qed.
+
+(* the Mean accumulator: the occurrences of model and specification coincide, and a value is accepted by the one iff by
+   the other *)
+Lemma mean_add_agrees : forall os sos t acc m, Forall2 obs_agrees os sos -> snd acc = sm_occ m ->
+  snd (fold_left mean_add_obs os acc) = sm_occ (fold_left (smean_add_obs t) sos m).
+Proof.
+  intros os sos t acc m A. revert acc m. induction A as [|o so os sos Ho A IH]; intros acc m E; cbn [fold_left]; [exact E|].
+  apply IH. destruct Ho; cbn; rewrite E; reflexivity.
+Qed.
+Lemma record_agrees : forall expected c r acc m, agrees c r -> snd acc = sm_occ m ->
+  snd (fst (record_call expected acc c)) = sm_occ (spec_record expected m r).
+Proof.
+  intros expected c r acc m A E. destruct A as [|s|msgs|os sos u dims fl t A]; cbn [record_call spec_record fst snd]; try exact E.
+  cbn [spec_accepts]. destruct (unit_eqb u expected); cbn [negb andb fst]; [|exact E].
+  destruct dims; cbn [fst]; [apply mean_add_agrees; assumption | exact E].
+Qed.
+Lemma mean_fold_agrees : forall expected vs acc m,
+  Forall (fun v => agrees (write v) (spec_write v)) vs -> snd acc = sm_occ m ->
+  snd (fold_left (fun acc c => fst (record_call expected acc c)) (map write vs) acc)
+  = sm_occ (fold_left (spec_record expected) (map spec_write vs) m).
+Proof.
+  intros expected vs. induction vs as [|v vs IH]; intros acc m F E; cbn [map fold_left]; [exact E|].
+  inversion F as [|? ? A F']; subst. apply IH; [exact F'|]. apply record_agrees; assumption.
+Qed.
 
 (* ---------------------------------------------------------------- the refinement *)
 Theorem write_agrees_spec : forall v, well_typed v = true -> script_errors_ok v -> agrees (write v) (spec_write v).
@@ -184,6 +216,12 @@ Proof.
     + destruct C as [C1 C2]. rewrite C1. constructor. exact C2.
     + destruct (fst (fold_left (collect (tag_unit e)) (map write l) ([], []))); [congruence|constructor].
   - destruct (N.eqb n 0); constructor. repeat constructor.
+  - assert (FA : Forall (fun v => agrees (write v) (spec_write v)) vs).
+    { cbn [well_typed] in WT. rewrite forallb_forall in WT. pose proof (script_errors_ok_mean u vs SE) as SD.
+      rewrite Forall_forall in H, SD |- *. intros v I. apply H; [exact I | apply WT; exact I | apply SD; exact I]. }
+    pose proof (mean_fold_agrees (tag_unit u) vs mean_zero smean_zero FA eq_refl) as O.
+    unfold mean_write, smean_write, mean_run_calls. rewrite O.
+    destruct (N.eqb _ 0); constructor. repeat constructor.
   - constructor.
   - cbn [well_typed] in WT. apply andb_prop in WT. destruct WT as [W1 _]. apply IHv; assumption.
 Qed.
